@@ -737,6 +737,8 @@ func checkC13(ctx *Ctx) *Result {
 		addL("bin:==(index("+FH+"#1, 0), 58)", false)
 		addL(PORT+"#2", false)
 		addL(`bin:==(`+PORT+`#1, "")`, false)
+		addL("bin:<(0, len:builtin.len("+PORT+"#1))", true)   // len(rest) > 0
+		addL("bin:==(len:builtin.len("+PORT+"#1), 0)", false) // len(rest) != 0
 		badRej := ""
 		nRejP := 0
 		for _, pa := range pp {
